@@ -38,6 +38,11 @@ def builtin_fn(ex, st, nm, e, cx, k):
                 t = v.ty
             if t.kind == 'list':
                 return k(st, SV(INT, ex.list_len(st, v)))
+            if t.kind == 'opt' and t.args[0].kind == 'str' and not cx.spec:
+                # len(None) raises TypeError
+                dt_ = T.sort_of(t)
+                return ex.guard_raise(st, cx, z3.Not(dt_.is_some(v.z)), 'TypeError', e,
+                                      lambda s_: k(s_, SV(INT, z3.Length(dt_.val(v.z)))), why='len(None)')
             if t.kind in ('seq', 'str'):
                 return k(st, SV(INT, z3.Length(v.z)))
             if t.kind == 'cfg':
@@ -370,7 +375,16 @@ def module_fn(ex, st, mod, attr, e, cx, k):
         # regular-expression matching is opaque: any outcome (no match, or some match object)
         def f(st, vs):
             m = ex.fresh(T.opt(T.Ty('match')), 'match')
-            return k(st.assume(m.z >= 0), m)
+            st = st.assume(m.z >= 0)
+            # trusted facts about one pattern, stated by the contract: groups that take part in every match of it
+            facts = (getattr(cx.contract, 'regex_facts', None) or {}) if cx.contract is not None else {}
+            for g_ in facts.get(ast.unparse(args[0]), []):
+                hg = ex.uf('match_has_group', z3.IntSort(), z3.IntSort(), z3.BoolSort())
+                st = st.assume(z3.Implies(m.z != 0, hg(m.z, I(g_))))
+                note = f'regex fact (trusted): every match of {ast.unparse(args[0])} has group {g_}'
+                if note not in ex.notes:
+                    ex.notes.append(note)
+            return k(st, m)
         return ex.ev_list(st, args, cx, f)
     if mod == 're' and attr == 'compile':
         return k(st, SV(OPAQUE, I(0)))
